@@ -74,7 +74,7 @@ def gen(rng, size='small'):
         elif nsys:
             ops.append(('find', rng.randint(0, nsys - 1), rng.choice([-1, -1, 0, 1, 2]), rng.choice([-1, -1, -1] + list(range(max(nassets, 1)))),
                         rng.choice([-1, -1] + REG_KINDS), rng.choice([-1, -1, 0, 1, 2, 14, 3, 5])))
-    twin = dict(kind=rng.choice(['line', 'line', 'maint', 'sched', 'sensor', 'buffer']), t=rng.choice([0, 4, 8, 20, 24]), d=rng.choice([24, 40, 64]),
+    twin = dict(kind=rng.choice(['line', 'line', 'maint', 'sched', 'sensor', 'buffer', 'spawn']), t=rng.choice([0, 4, 8, 20, 24]), d=rng.choice([24, 40, 64]),
                 mode=rng.choice(['between', 'event']), p1=rng.choice([0, 4, 8, 12]), p2=rng.choice([4, 8, 16]))
     return dict(ops=ops, twin=twin)
 
@@ -287,6 +287,27 @@ def _build(kind, p1, p2, log, now):
         def read():
             return dict(n=len(sen.data['time']), last=list(sen.last_sense or []))
         return read
+    if kind == 'spawn':
+        # an asset whose initialize() brings in further assets (a source and its sink): registered while the System is in the
+        # middle of initialising its assets (early) or initialised on the spot (late)
+        from simprocesd.model.factory_floor import Asset
+        made = {}
+
+        class Spawner(Asset):
+            def initialize(self, env):
+                super().initialize(env)
+                src = Source('csrc', cycle_time=p2 / T)
+                snk = Sink('csnk', upstream=[src])
+                snk.add_receive_part_callback(lambda d, p: log.append(('rcv', common.to_ticks(d.env.now))))
+                made['src'], made['snk'] = src, snk
+        Spawner('spawner')
+
+        def read():
+            if 'snk' not in made:
+                return dict(spawned=False)
+            return dict(spawned=True, received=made['snk'].received_parts_count, produced=made['src'].produced_parts,
+                        child_env=made['src'].env is not None and made['snk'].env is not None)
+        return read
     raise Discard('unknown twin kind')
 
 
@@ -398,6 +419,9 @@ def monitor_c20(sc, obs):
         if l['err'] and not e['err']:
             bad('C20/late-twin-error', 'a %s model created at time %d (%s) raised %s; created before the start it runs' % (sc['twin']['kind'], sc['twin']['t'], sc['twin']['mode'], l['err']))
         elif not l['err'] and not e['err']:
+            for which, r in (('before the start', e), ('while the simulation is running', l)):
+                if sc['twin']['kind'] == 'spawn' and r['out'] and not (r['out'].get('spawned') and r['out'].get('child_env')):
+                    bad('C20/spawned-not-initialised', 'assets created from inside another asset\'s initialize() (%s) were never initialised: %s' % (which, r['out']))
             if e['out'] != l['out']:
                 bad('C20/late-twin-outcome', 'a %s model created at time %d (%s) ends with %s; created before the start (same duration) with %s' % (sc['twin']['kind'], sc['twin']['t'], sc['twin']['mode'], l['out'], e['out']))
             elif e['log'] != l['log']:
